@@ -56,7 +56,7 @@ func (c06) Info() core.Info {
 			"descriptor bodies are compared through the decoders for the decodable kinds; opaque descriptors by tag only (the API exposes no raw body)",
 			"after an injected reader error ReadPMT may return that error or the exact answer; truncation before the last needed packet must give ErrPMTNotFound",
 		},
-		RequiredProbes: []string{"first_packet_payload_le3", "split_inside_header", "split_inside_descriptor", "split_before_crc", "pointer_gt0", "foreign_section_before", "interleaved", "af_len0_stuffing", "multi_packet_ge3", "section_len_ge_1000", "other_pmt_on_other_pid", "trailing_stuffing", "truncated_before_end", "zero_streams"},
+		RequiredProbes: []string{"first_packet_payload_le3", "split_inside_header", "split_inside_descriptor", "split_before_crc", "pointer_gt0", "foreign_section_before", "interleaved", "af_len0_stuffing", "multi_packet_ge3", "section_len_ge_1000", "other_pmt_on_other_pid", "trailing_stuffing", "truncated_before_end", "zero_streams", "es_info_length_ge_256", "program_info_length_ge_256"},
 	}
 }
 
@@ -267,6 +267,24 @@ func (c06) Exec(script interface{}, c *core.Ctx) {
 	}
 	if len(s.PMT.Streams) == 0 {
 		c.Probe("zero_streams")
+	}
+	for _, e := range s.PMT.Streams {
+		n := 0
+		for _, d := range e.Descs {
+			n += 2 + len(d.Body)
+		}
+		if n >= 256 {
+			c.Probe("es_info_length_ge_256")
+		}
+	}
+	{
+		n := 0
+		for _, d := range s.PMT.ProgDescs {
+			n += 2 + len(d.Body)
+		}
+		if n >= 256 {
+			c.Probe("program_info_length_ge_256")
+		}
 	}
 	// exempt boundaries: end of every section but the last
 	exempt := map[int]bool{}
